@@ -36,11 +36,12 @@ type agg struct {
 	suspects                       []rt.Params
 	suspectLogs                    []string
 	seedLo, seedHi                 uint64
+	extra                          map[string]int64
 }
 
 func newAgg() *agg {
 	return &agg{faults: map[string]int{}, probes: map[string]int{}, cells: map[string]bool{}, traces: map[string]bool{},
-		states: map[string]bool{}, perScen: map[string]int{}, otherClauses: map[string]int{}, owned: map[string]*failing{}}
+		states: map[string]bool{}, perScen: map[string]int{}, otherClauses: map[string]int{}, owned: map[string]*failing{}, extra: map[string]int64{}}
 }
 
 func (a *agg) add(p *propSpec, r rt.Result) {
@@ -78,6 +79,9 @@ func (a *agg) add(p *propSpec, r rt.Result) {
 	}
 	for _, c := range r.Cells {
 		a.cells[c] = true
+	}
+	for k, v := range r.Extra {
+		a.extra[k] += v
 	}
 	if r.Preempts > 0 || nf > 0 {
 		a.traces[r.Params.Scenario+":"+r.TraceHash] = true
@@ -217,7 +221,17 @@ func runCheck(e *env, p *propSpec, tier string) int {
 		jobs := make([]rt.Params, 0, n)
 		for i := 0; i < n; i++ {
 			idx++
-			jobs = append(jobs, rt.Params{Scenario: spec.Name, Opt: spec.Opt, Seed: e.seed*1_000_003 + idx, KeepLog: 80})
+			opt := spec.Opt
+			if tier == "quick" && len(p.QuickOpt) > 0 && len(spec.Opt) > 0 {
+				opt = map[string]string{}
+				for k, v := range spec.Opt {
+					opt[k] = v
+				}
+				for k, v := range p.QuickOpt {
+					opt[k] = v
+				}
+			}
+			jobs = append(jobs, rt.Params{Scenario: spec.Name, Opt: opt, Seed: e.seed*1_000_003 + idx, KeepLog: 80})
 		}
 		return jobs
 	}
@@ -232,7 +246,7 @@ func runCheck(e *env, p *propSpec, tier string) int {
 					what = "timed out (watchdog)"
 				}
 				a.suspects = append(a.suspects, o.missing[0])
-				a.suspectLogs = append(a.suspectLogs, fmt.Sprintf("worker %s at scenario=%s seed=%d:\n%s", what, o.missing[0].Scenario, o.missing[0].Seed, o.log))
+				a.suspectLogs = append(a.suspectLogs, fmt.Sprintf("worker %s at scenario=%s seed=%d:\n%s", what, o.missing[0].Scenario, o.missing[0].Seed, tail(o.log, 2500)))
 				if len(o.missing) > 1 {
 					requeue = append(requeue, o.missing[1:])
 				}
@@ -252,7 +266,8 @@ func runCheck(e *env, p *propSpec, tier string) int {
 			}
 		}
 	}
-	e.pool(next, func(n int) time.Duration { return time.Duration(60+6*n) * time.Second }, sink)
+	// generous watchdog: the machine may be shared with other checks
+	e.pool(next, func(n int) time.Duration { return time.Duration(600+30*n) * time.Second }, sink)
 	runSecs := time.Since(e.t0).Seconds()
 
 	exit := 0
